@@ -409,3 +409,25 @@ Example C12_close_flag_monitor_rejects :
                        TRead 0 (RObj 1 false) 0 None; TRead 0 (RObj 1 true) 0 None] = true.
 Proof. vm_compute. repeat split; reflexivity. Qed.
 (* ===== end block: C12CloseFlag ===== *)
+
+(* ===== block: FdtClose (encoder-level half of P_C08_fdt_close_flag) =====
+   An encoder that is not closable (a transfer that is not the last one: every transfer of a carousel
+   object, hence of an FDT instance) and is never forced never sets the close-object flag on a
+   non-empty object, however many reads are made.  The session-level half - the FDT session never
+   forces (must_stop is false for it) and FDT instances are carousel objects with at least one
+   packet - is evaluated on every run by P_C08_fdt_close_flag over the implementation's trace. *)
+From FluteV Require Import Proofs.FdtClose.
+Theorem C12_unforced_nonclosable_encoder_never_flags : forall n e,
+  e_closable e = false -> ((0 < e_left e)%nat \/ e_sent e <> 0) ->
+  Forall (fun c => c = false) (fst (enc_reads n e)).
+Proof. intros n e Hc Hn. exact (proj1 (unforced_nonclosable_never_flags n e (conj Hc Hn))). Qed.
+Print Assumptions C12_unforced_nonclosable_encoder_never_flags.
+
+(* non-vacuity: a 3-packet non-closable transfer gives three unflagged packets and then nothing;
+   both premises are needed: a closable one flags its last packet, an empty object its lone packet *)
+Example C12_example_encoder_flags :
+  fst (enc_reads 5 (mk_enc 3 0 false false)) = [false; false; false]
+  /\ fst (enc_reads 5 (mk_enc 3 0 false true)) = [false; false; true]
+  /\ fst (enc_reads 5 (mk_enc 0 0 false false)) = [true].
+Proof. vm_compute. repeat split; reflexivity. Qed.
+(* ===== end block: FdtClose ===== *)
